@@ -70,11 +70,12 @@ def run(chk):
             d['segments'] = style
             for piece in scen.pieces(raw, rnd, style):
                 conv.step(('c', piece))
-            conv.step(('u', 1, RESP))
+            conv.step(('u', max(1, len(conv.sim.upstreams)), RESP))       # the origin the request went to answers (a follow-up request
+            #                                                               naming another origin goes over a new upstream connection)
             reqs.append(raw)
             ds.append(d)
         t = conv.transcript()
-        ugot = t['upstreams'][0]['got'] if t['upstreams'] else b''
+        ugot = b''.join(u_['got'] for u_ in t['upstreams'])             # in connect order = request order (lock step)
         cid = len(cases) + 1
         cases.append({'id': cid, 'reqs': [list(r) for r in reqs], 'ugot': list(ugot), 'disabled': [list(d) for d in disabled]})
         descs[cid] = {'mode': 'threaded' if threaded else 'threadless', 'auth': bool(auth), 'disabled': [d.decode() for d in disabled], 'requests': ds,
